@@ -377,7 +377,7 @@ func init() {
 		"runtime.Caller": func(fr *frame, args []value) value {
 			return tuple{uintptr(0), "", 0, false}
 		},
-		"time.Sleep": func(fr *frame, args []value) value { fr.i.sched.yield(); return nil },
+		"time.Sleep": func(fr *frame, args []value) value { fr.i.sched.yieldAll(); return nil },
 		"os.Exit": func(fr *frame, args []value) value {
 			panic(targetPanic{v: fmt.Sprintf("os.Exit(%d)", fr.i.asIntC(args[0]))})
 		},
